@@ -147,6 +147,13 @@ FEECFG_MODELS = [
 ]
 
 
+# bankruptcy with values (Bkr.tla): insurance below / at / above the bad debt, permissionless opt-in and out, three signers, what follows
+BKR_MODELS = [
+    {"name": "bkr", "module": "MC_Bkr.tla", "cfg": {"quick": "MC_BkrQuick.cfg", "thorough": "MC_BkrThorough.cfg"},
+     "setup": "setups/riskmodel.json", "init_from_setup": True, "timeout": {"quick": 900, "thorough": 10000}},
+]
+
+
 RISKCFG_MODELS = [
     {"name": "riskcfg", "module": "MC_RiskCfg.tla", "cfg": {"quick": "MC_RiskCfgQuick.cfg", "thorough": "MC_RiskCfgThorough.cfg"},
      "setup": "setups/riskcfg.json", "init_from_setup": True, "timeout": {"quick": 900, "thorough": 10000}},
@@ -258,7 +265,7 @@ PROPS = {
     },
     "C04": dict(risk_prop(["borrow", "withdraw", "kamino_withdraw", "drift_withdraw", "solend_withdraw", "tx"]), models=RISK_MODELS + RISKCFG_MODELS, drivers=RISK_DRIVERS + LEDGER_DRIVERS + STAKED_DRIVERS + KAMINO_DRIVERS + EDGE_DRIVERS),
     "C05": risk_prop2(["liquidate"], LIQ_DRIVERS + LEDGER_DRIVERS + STAKED_DRIVERS + EDGE_DRIVERS, models=RISK_MODELS + RISKCFG_MODELS + LIQ_MODELS),
-    "C07": risk_prop2(["bankruptcy"], LIQ_DRIVERS + LEDGER_DRIVERS + EDGE_DRIVERS, models=RISK_MODELS),
+    "C07": risk_prop2(["bankruptcy"], LIQ_DRIVERS + LEDGER_DRIVERS + EDGE_DRIVERS, models=RISK_MODELS + BKR_MODELS),
     "C09": risk_prop2(["borrow", "withdraw", "liquidate", "bankruptcy", "pulse_health"], LIQ_DRIVERS + RISK_DRIVERS + LEDGER_DRIVERS + STAKED_DRIVERS + KAMINO_DRIVERS + EDGE_DRIVERS, models=RISK_MODELS + ORACLE_MODELS + RISKCFG_MODELS),
     "C13": risk_prop2(["add_bank", "add_bank_staked", "add_bank_kamino", "add_bank_drift", "add_bank_solend", "init_staked_settings", "edit_staked_settings", "propagate_staked", "configure_bank", "configure_emode", "borrow", "withdraw", "pulse_health", "bankruptcy", "clone_emode"],
                       LIQ_DRIVERS + RISK_DRIVERS + ADMIN_DRIVERS + STAKED_DRIVERS + KAMINO_DRIVERS + EDGE_DRIVERS, models=RISK_MODELS + CONFIG_MODELS + RISKCFG_MODELS),
